@@ -23,6 +23,12 @@ def gen_case(rng):
         seqs = [s + "".join(rng.choice(gen.AA_ONLY) for _ in range(len(s) // 3 + 1)) for s in seqs]
         if rng.random() < 0.5:
             seqs = ["".join(rng.choice("BZX") if rng.random() < 0.05 else c for c in s) for s in seqs]
+    if kind == "prot" and rng.random() < 0.08:
+        # residues that happen to spell a format keyword (all are amino-acid letters; U = selenocysteine)
+        kw = rng.choice(["CLUSTAL", "CLUSTALW", "MSF", "NAME", "CHECK", "MULTIPLE", "PILEUP"])
+        i_ = rng.randrange(len(seqs))
+        p_ = rng.randint(0, len(seqs[i_]))
+        seqs[i_] = seqs[i_][:p_] + kw + seqs[i_][p_:]
     names = gen.names(rng, len(seqs), "s")
     return kind, list(zip(names, seqs))
 
